@@ -413,6 +413,19 @@ def c06k(db, res):
         res.check(walks or not stateless, 'C06.k', 'data_probe_chunk_length:return-0@%s' % ('|'.join('%s%s%s' % a for a, e in P.facts_at(f, b)[-1:]) or 'top'), 'inside a scan of the line from its first byte',
                   'data_probe_chunk_length answers "not a chunk length" outside any scan of the line (it keeps no state, so it judges the byte at hand alone): a chunk-length line with a chunk extension or anything else after the digits is cut short and chunk data is taken from inside the line', st['loc'])
     res.floor('C06.k', '"not a chunk length" returns of the probe', n, 1)
+    # ... and the verdict is about the FIRST significant byte: a scan goes on to the next byte only over a control character
+    # (a hex digit ends the scan with "yes"); a scan that walks on over digits lets a later byte - the ';' of a chunk
+    # extension - turn the verdict into "no"
+    m = 0
+    for h, body in lps:
+        for atoms, events, end, seq in P.enum_paths_seq(f, (h, -1), max_paths=20000):
+            if end[0] != 'loop' or end[1] != h:
+                continue
+            m += 1
+            over_ctl = any(a[0].startswith('is_chunked_ctl_char(') and ((a[1] == '!=' and a[2] == '0') or (a[1] == '==' and a[2] == '1')) for a, e in atoms)
+            res.check(over_ctl, 'C06.k', 'data_probe_chunk_length:scan-continues-only-over-control-bytes', 'the scan steps over control characters only',
+                      'a scan loop of data_probe_chunk_length goes on to the next byte without having seen a control character (guards: %s): bytes behind the first hex digit still decide, so the \';\' of a chunk extension makes a valid chunk-length line "not a chunk length"' % [a for a, e in atoms][-2:], f.blocks[h]['stmts'][-1]['loc'] if f.blocks[h]['stmts'] else f.loc)
+    res.floor('C06.k', 'ways round the scan loops of the probe', m, 2)
 
 
 def central_accounting(db, proc, fld):
